@@ -1,27 +1,13 @@
 /-
-Model of `src/asynkit/monitor.py`, classes `Monitor` and `BoundMonitor` (lines 50-280),
-written from the Python line by line.  Core Lean only.
-
-Ingredients
-* `Env`      : the `Monitor.state` cell of every monitor (0 idle / 1 inside `_asend` / -1 oob value
-               in flight), indexed by a monitor id.
-* `MBody`    : an arbitrary coroutine body that may, besides really suspending (`yield y`),
-               execute `await m.oob(d)` for any monitor `m` (a "system call" `Step.oob`).  The
-               lines of `Monitor.oob` are `resolve`: state = 0 → RuntimeError raised inside
-               the body (the body's reaction is the `refused` continuation of the step),
-               otherwise state := -1 and `d` is yielded.
-* `SBody`    : a coroutine running against the monitor cells (`resume : σ → Resume → Env → SRes σ`).
-               `ofM b` is the leaf, `nest p c` a parent body `p` that drives the sub-coroutine `c`
-               through monitors (`PStep.sub`), so monitors nest to any depth.
-* `SCoro`    : CPython's coroutine-object envelope (`send/throw/close`, PEP 479, "cannot reuse",
-               "ignored GeneratorExit") around an `SBody`  — modelled, not verified.
-* `asendStart/asendResume` : the generator `Monitor._asend` (first activation / resumption at its
-               `yield out_value`).  `callStart/callResume/callClose` : the five entry points
-               `aawait/athrow/aclose/start/try_await` as resumable calls.
+FROZEN COPY of the Monitor model as it was BEFORE the repair e5acd69 of /repo ("a Monitor.oob() value
+swallowed while the coroutine is being closed no longer corrupts the monitor"): `Monitor.oob` yields the
+bare data and `_asend` recognises out-of-band data by `state == -1` alone.  It describes code that no
+longer exists and is kept for one purpose only: `Asynkit.C07.stale_oob_after_close`, the `decide`d
+witness of the finding `monitor:stale-oob-after-close`.  Nothing else may depend on it.
 -/
 import Asynkit.Model.Proto
 
-namespace Asynkit.Monitor
+namespace Asynkit.MonitorOld
 open Asynkit.Proto (Val Exc Resume)
 
 abbrev MonId := Nat
@@ -49,14 +35,6 @@ def rtRaisedOOB : Nat := 12      -- "coroutine raised OOBData"                (l
 def rtMonIgnoredGE : Nat := 13   -- "Monitor coroutine ignored GeneratorExit" (line 193)
 def rtNoOob : Nat := 14          -- "Coroutine did not await Monitor.oob()"   (line 205)
 
-/-- What travels upwards from a suspended coroutine: an ordinary awaitable/token (`plain`), or the
-    private `_OOBRequest(monitor, data)` object that `Monitor.oob` yields (monitor.py 50-59).  A body's
-    own suspensions are `Val`s (`Step.yield`), so a body cannot forge a request. -/
-inductive YV where
-  | plain (v : Val)
-  | req (m : MonId) (d : Val)
-deriving Repr, DecidableEq, Inhabited
-
 /-! ### bodies -/
 
 /-- One resumption of a body, run up to its next interaction with the outside.
@@ -78,7 +56,7 @@ structure MBody where
 
 /-- Result of resuming a coroutine that runs against the monitor cells. -/
 inductive SRes (σ : Type) where
-  | yield (y : YV) (s : σ) (env : Env)
+  | yield (y : Val) (s : σ) (env : Env)
   | ret (v : Val) (s : σ) (env : Env)
   | raise (e : Exc) (s : σ) (env : Env)
 
@@ -87,13 +65,12 @@ structure SBody where
   init : σ
   resume : σ → Resume → Env → SRes σ
 
-/-- `Monitor.oob` (lines 179-196) applied to the step of a body:
-    `if self.state == 0: raise RuntimeError` (a left-over -1 is accepted), `self.state = -1`,
-    `return (yield _OOBRequest(self, data))`. -/
+/-- `Monitor.oob` (lines 167-179) applied to the step of a body:
+    `if self.state != 1: raise RuntimeError`, `self.state = -1`, `return (yield data)`. -/
 def resolve {σ : Type} : Step σ → Env → SRes σ
-  | .yield y s, env => .yield (.plain y) s env
+  | .yield y s, env => .yield y s env
   | .oob m d s refused, env =>
-    if env m = 0 then resolve (refused ()) env else .yield (.req m d) s (env.set m (-1))
+    if env m ≠ 1 then resolve (refused ()) env else .yield d s (env.set m (-1))
   | .ret v s, env => .ret v s env
   | .raise e s, env => .raise e s env
 
@@ -111,7 +88,7 @@ inductive CSt (σ : Type) where
   | done (s : σ)      -- finished; `s` = the body's final state (its side effects)
 
 inductive SOut where
-  | yield (y : YV)
+  | yield (y : Val)
   | ret (v : Val)
   | raise (e : Exc)
 deriving Repr, DecidableEq, Inhabited
@@ -171,22 +148,16 @@ structure Sys (c : SBody) where
 /-- What a call (`aawait(...)` etc., itself a coroutine) does when activated: it is suspended
     with `y` passed to whoever drives it, or it finished. -/
 inductive CallOut where
-  | pending (y : YV)
+  | pending (y : Val)
   | returned (v : Val)
   | raised (e : Exc)
 deriving Repr, DecidableEq, Inhabited
 
-/-- top of `while True:` with `out_value = y` (lines 99-108):
-    `if self.state == -1: self.state = 1; if isinstance(out_value, _OOBRequest) and
-    out_value.monitor is self: raise OOBData(out_value.data)` (then `finally: state = 0`); in every
-    other case (a left-over -1 has just been reset) suspend in `in_value = yield out_value`. -/
-def relayTop {c : SBody} (m : MonId) (y : YV) (cs : CSt c.σ) (env : Env) : Sys c × CallOut :=
-  if env m = -1 then
-    match y with
-    | .req m' d =>
-      if m' = m then (⟨cs, (env.set m 1).set m 0⟩, .raised (.oobData d))
-      else (⟨cs, env.set m 1⟩, .pending y)
-    | .plain _ => (⟨cs, env.set m 1⟩, .pending y)
+/-- top of `while True:` with `out_value = y` (lines 87-92):
+    `if self.state == -1: self.state = 1; raise OOBData(out_value)` (then `finally: state = 0`),
+    else suspend in `in_value = yield out_value`. -/
+def relayTop {c : SBody} (m : MonId) (y : Val) (cs : CSt c.σ) (env : Env) : Sys c × CallOut :=
+  if env m = -1 then (⟨cs, (env.set m 1).set m 0⟩, .raised (.oobData y))
   else (⟨cs, env⟩, .pending y)
 
 /-- after `out_value = coro.send(in_value)` / `coro.throw(exc)` inside the loop (lines 97-106):
@@ -331,9 +302,9 @@ def CallOut.toResume : CallOut → Resume
 
 /-- run the parent up to its next suspension -/
 def nestRun (p : PBody) (c : SBody) : PStep p.σ → CSt c.σ → Env → SRes (NSt p.σ c.σ)
-  | .yield y s, cc, env => .yield (.plain y) (.at s cc) env
+  | .yield y s, cc, env => .yield y (.at s cc) env
   | .oob m d s refused, cc, env =>
-    if env m = 0 then nestRun p c (refused ()) cc env else .yield (.req m d) (.at s cc) (env.set m (-1))
+    if env m ≠ 1 then nestRun p c (refused ()) cc env else .yield d (.at s cc) (env.set m (-1))
   | .sub m op s k, cc, env =>
     match callStart m op (⟨cc, env⟩ : Sys c) with
     | (⟨cc', env'⟩, .pending y) => .yield y (.inSub m op s k cc') env'
@@ -354,4 +325,4 @@ def nest (p : PBody) (c : SBody) : SBody where
       | (⟨cc', env'⟩, .returned v) => nestRun p c (k (some r) (.send v)) cc' env'
       | (⟨cc', env'⟩, .raised e) => nestRun p c (k (some r) (.throw e)) cc' env'
 
-end Asynkit.Monitor
+end Asynkit.MonitorOld
